@@ -1,5 +1,5 @@
 // auto-generated: "lalrpop 0.23.1"
-// sha3: 37e671c8819c5524a18a1c72ba0e8a9f713f1e8007d076eef6d1ed1b9ea6bf9f
+// sha3: 9ed4ceb8227c4dca4f024f6b91ea79fc0fb7614192b310c3feec3ecdea3d6697
 #[allow(unused_extern_crates)]
 extern crate lalrpop_util as __lalrpop_util;
 #[allow(unused_imports)]
@@ -641,7 +641,7 @@ fn __action1<
     (_, __0, _): (usize, &'input str, usize),
 ) -> String
 {
-    b'}' as char.to_string()
+    (b'}' as char).to_string()
 }
 
 #[allow(unused_variables)]
